@@ -31,3 +31,18 @@ Proof. repeat split; eexists; split; vm_compute; reflexivity. Qed.
 
 Print Assumptions C04_lossless.
 Print Assumptions C04_configurations_well_formed.
+
+(* State space: the objects this property's model stands for have exactly the fields the model accounts for (StateSpace.v;
+   gen/StateSpaceGen.v is regenerated from the Go sources on every run). A new field - a cache, a memo, a counter - is state
+   the model does not have, so the theorems above would no longer be about the object. *)
+From Coq Require Import String.
+Require Import StateSpaceGen StateSpace.
+Open Scope string_scope.
+Theorem C04_state_space :
+  fields_of "tokenizers.AbstractTokenizer" = fields ["Overrides"; "mp"; "skipUnknown"; "skipWhitespaces"; "skipComments"; "skipEof"; "mergeWhitespaces"; "unifyNumbers"; "decodeStrings"; "commentState"; "numberState"; "quoteState"; "symbolState"; "whitespaceState"; "wordState"; "Scanner"; "NextTokenValue"; "LastTokenType"] /\
+  fields_of "io.StringScanner" = fields ["content"; "position"; "line"; "column"] /\
+  fields_of "tokenizers/generic.SymbolNode" = fields ["parent"; "character"; "children"; "tokenType"; "valid"; "ancestry"] /\
+  fields_of "tokenizers/generic.GenericSymbolState" = fields ["symbols"] /\
+  fields_of "tokenizers.Token" = fields ["typ"; "value"; "line"; "column"].
+Proof. vm_compute. repeat split; reflexivity. Qed.
+Print Assumptions C04_state_space.
